@@ -22,9 +22,9 @@ FAMILIES = {
     "C01": ["ctor", "insrem"], "C02": ["access"], "C03": ["views"],
     "C04": ["views", "access", "swapfill", "copy", "translate", "sort"],
     "C05": ["insrem"], "C06": ["insrem"], "C07": ["insrem"],
-    "C08": ["rows"], "C09": ["cols"], "C10": ["cells"], "C11": ["panicsafe"], "C12": ["leak"],
+    "C08": ["rows", "views"], "C09": ["cols", "views"], "C10": ["cells", "views"], "C11": ["panicsafe"], "C12": ["leak"],
     "C13": ["swapfill"], "C14": ["copy"], "C15": ["translate"], "C16": ["sort"], "C17": ["sort"],
-    "C18": ["serde"], "C19": ["deser"], "C20": ["ctor"],
+    "C18": ["serde", "ctor"], "C19": ["deser"], "C20": ["ctor"],
 }
 
 
@@ -55,7 +55,7 @@ def build(repo, profile):
     return out
 
 
-def run_family(exe, fam, max_cases=None, timeout=300):
+def run_family(exe, fam, max_cases=None, timeout=150):
     cmd = [exe, "search", fam] + (["--max-cases", str(max_cases)] if max_cases else [])
     try:
         p = subprocess.run(cmd, stdout=subprocess.PIPE, stderr=subprocess.PIPE, universal_newlines=True, timeout=timeout)
@@ -67,6 +67,37 @@ def run_family(exe, fam, max_cases=None, timeout=300):
         if ln.startswith("OK "):
             return {"family": fam, "status": "ok", "summary": ln}
     return {"family": fam, "status": "error", "out": (p.stdout + p.stderr)[-400:]}
+
+
+def find_hang(exe, fam, timeout=60):
+    """A family that does not finish (each takes well under a minute on the unchanged tree): re-run it
+    writing every case to a trace file before it starts; the file then names the case that hangs."""
+    import tempfile
+    fd, path = tempfile.mkstemp(prefix="replay-trace-")
+    os.close(fd)
+    env = dict(os.environ, REPLAY_TRACE=path)
+    try:
+        subprocess.run([exe, "search", fam], stdout=subprocess.PIPE, stderr=subprocess.PIPE, env=env, timeout=timeout)
+        return None      # it finished this time: no hang
+    except subprocess.TimeoutExpired:
+        pass
+    try:
+        doc = json.loads(open(path).read())
+    except Exception:
+        return None
+    finally:
+        try:
+            os.unlink(path)
+        except OSError:
+            pass
+    # confirm: the single case alone must not finish either
+    case_json = json.dumps({"family": doc["family"], "case": doc["case"]})
+    try:
+        subprocess.run([exe, "run", case_json], stdout=subprocess.PIPE, stderr=subprocess.PIPE, timeout=45)
+        return None
+    except subprocess.TimeoutExpired:
+        return {"family": doc["family"], "case": doc["case"], "expected": "the call sequence terminates (the whole family runs in seconds on the unchanged tree)",
+                "got": "no termination within 45 s", "variant": "hang"}
 
 
 def confirm(exe, case_json):
@@ -85,6 +116,13 @@ def search(repo, pid, violation=None):
         for fam in fams:
             r = run_family(exe, fam)
             tried.append({"profile": profile, "family": fam, "status": r["status"], "summary": r.get("summary")})
+            if r["status"] == "timeout":
+                h = find_hang(exe, fam)
+                if h:
+                    return {"found": True, "confirmed": True, "profile": profile, "family": fam, "scenario": h,
+                            "replay_transcript": "REPLAY-CONFIRMED (hang) %s" % json.dumps(h),
+                            "replay_cmd": "timeout 45 %s run '<scenario json>'  (crate built from %s, profile %s)" % (exe, repo, profile),
+                            "tried": tried}
             if r["status"] == "fail":
                 ok, transcript = confirm(exe, r["case"])
                 return {"found": True, "confirmed": ok, "profile": profile, "family": fam,
